@@ -19,6 +19,7 @@ from ..oracles import xml_faults as xf
 PROP = "C12"
 LEVEL = "fault_enumeration"
 REPO = "/repo"
+ZOO = os.path.join(os.path.dirname(os.path.dirname(os.path.abspath(__file__))), "oracles", "c12_zoo.dmn")
 
 # ---- bases: shipped files and generated models -------------------------------------------------------------------
 
@@ -683,13 +684,20 @@ def run(ctx):
     enumerate_singles(ctx, [(b, 1, 0) for b in gens], "all single structural faults of %d generated models" % len(gens), True)
     if ctx.stop():
         return
+    # a hand-written model holding every item-definition variant (simple with allowed values, collection of simple / referenced /
+    # component type with nested collections of components, referenced, component) used by inputs, decision variables and BKM
+    # parameters, next to every kind of requirement: all its single faults are enumerated in every run, so that e.g. every
+    # typeRef -> ancestor retargeting of every variant is covered whatever subset of shipped files the seed selects
+    enumerate_singles(ctx, [({"file": ZOO}, 1, 0)], "all single structural faults of the item-definition / requirement zoo model", True)
+    if ctx.stop():
+        return
     ctx.enumerate(ctx.p_min, ({"min": k} for k in MINIMAL if ctx.thorough() or k not in SLOW_MINIMAL), batch=1,
                   name="hand-minimised models of findings/C12.md", exhaustive=True)
     if ctx.stop():
         return
     # nesting depth grid (valid models)
     depths = {k: [16, 128, 1024, 4096] + ([20000] if ctx.thorough() else []) for k in NEST_KINDS}
-    depths["list-literal"] = [4, 8, 16, 20, 48, 200]   # 48 and 200: regression cases of finding F10 (fixed by eccc2b4 in /repo)
+    depths["list-literal"] = [4, 8, 16, 20, 48, 200]   # 48 and 200: regression cases of finding F10 (fixed by 26ec129 in /repo)
     ctx.enumerate(ctx.p_nest, ({"nest": k, "depth": n} for n in sorted({n for v in depths.values() for n in v}) for k in NEST_KINDS if n in depths[k]),
                   batch=1, name="nesting depth grid: %s x depths" % "/".join(NEST_KINDS), exhaustive=True)
     if ctx.stop():
